@@ -9,27 +9,48 @@ From Verif Require Import Base.Num Base.Vec Lib.Axis.
 Import ListNotations.
 Local Open Scope num_scope.
 
-Inductive bop := BAdd | BSub | BMul | BMax | BMin.
-Inductive uop := UNeg | UAbs | USquare | USign | UPos.
+Inductive bop := BAdd | BSub | BMul | BMax | BMin
+  | BDiv                                  (* true_divide *)
+  | BFmax | BFmin                         (* = maximum / minimum without NaN *)
+  | BLess | BLessEq | BGreater | BGreaterEq | BEq | BNe      (* comparisons, 0/1 valued *)
+  | BLogAnd | BLogOr | BLogXor.           (* logical ops on "nonzero" *)
+Inductive uop := UNeg | UAbs | USquare | USign | UPos | UReciprocal | ULogNot.
 
 Section Arr.
 Context {T : Type} `{Num T}.
 
+Definition of_bool (c : bool) : T := if c then none_ else nzero.
+Definition truthy (a : T) : bool := negb (a =? nzero).
 Definition bop_ev (o : bop) (a b : T) : T :=
   match o with
   | BAdd => a + b | BSub => a - b | BMul => a * b
-  | BMax => nmax a b | BMin => nmin a b
+  | BMax | BFmax => nmax a b | BMin | BFmin => nmin a b
+  | BDiv => a / b
+  | BLess => of_bool (a <? b) | BLessEq => of_bool (a <=? b)
+  | BGreater => of_bool (b <? a) | BGreaterEq => of_bool (b <=? a)
+  | BEq => of_bool (a =? b) | BNe => of_bool (negb (a =? b))
+  | BLogAnd => of_bool (truthy a && truthy b)
+  | BLogOr => of_bool (truthy a || truthy b)
+  | BLogXor => of_bool (xorb (truthy a) (truthy b))
   end.
 Definition uop_ev (u : uop) (a : T) : T :=
   match u with
   | UNeg => - a | UAbs => nabs a | USquare => a * a | USign => nsign a | UPos => a
+  | UReciprocal => none_ / a | ULogNot => of_bool (negb (truthy a))
   end.
 (* ufunc.identity; None = "no identity" (reduce over an empty axis raises ValueError) *)
 Definition bop_ident (o : bop) : option T :=
-  match o with BAdd => Some nzero | BMul => Some none_ | _ => None end.
+  match o with
+  | BAdd | BLogOr | BLogXor => Some nzero
+  | BMul | BLogAnd => Some none_
+  | _ => None
+  end.
 (* NumPy refuses several reduction axes for non-reorderable ufuncs *)
 Definition bop_reorderable (o : bop) : bool :=
-  match o with BSub => false | _ => true end.
+  match o with
+  | BSub | BDiv | BLess | BLessEq | BGreater | BGreaterEq | BEq | BNe => false
+  | _ => true
+  end.
 
 (* ---------- rows: a block of n rows of equal length [inner] ---------- *)
 Definition rows := list (list T).
